@@ -5,11 +5,11 @@ from harness import core, tlc
 
 RULE = ("documents = every token stream that the grammar-driven producer of MC_Asc emits within the bounds (points, split nesting, alternatives per "
         "split incl. empty ones, colour markers and comments at every place the grammar allows); for each: the complete document, every proper "
-        "prefix and every single-point corruption (dropped / extra float, literal for a float, glued word, missing bracket), rendered with varying "
+        "prefix and every single-point corruption (dropped / extra float, literal for a float, glued word, missing bracket, doubled closing bracket), rendered with varying "
         "whitespace and number spellings through from_stream / convert / __call__; plus scaled documents (long branches, deep nesting) and random "
         "documents; non-trivial = the document has a split; distinct by (token stream, variant)")
 
-KINDS = ["dropped-float", "extra-float", "literal-for-float", "glued-word", "missing-close"]
+KINDS = ["dropped-float", "extra-float", "literal-for-float", "glued-word", "missing-close", "extra-close"]
 
 
 def corrupt(T, p, kind):
@@ -25,6 +25,8 @@ def corrupt(T, p, kind):
         T[i + 2] = ["X", "1abc"]
     elif kind == "missing-close":
         del T[i + 4]
+    elif kind == "extra-close":
+        T.insert(i + 5, [")"])
     return T
 
 
@@ -243,6 +245,7 @@ def run(ctx):
     ctx.mc("MC_Asc", "MC_Asc.%s.cfg" % ctx.tier, deadlock=False, coverage=False, timeout=3000)
     ctx.mc_expect_violation("MC_Asc", "MC_Asc.nolead.cfg", "Faithful", deadlock=False)
     ctx.mc_expect_violation("MC_Asc", "MC_Asc.noclose.cfg", "RejectsTruncated", deadlock=False)
+    ctx.mc_expect_violation("MC_Asc", "MC_Asc.trailing.cfg", "RejectsCorrupt", deadlock=False)
     # the tokeniser, character by character: the state machine computes Lex (MC_Lexer), every short string goes through the real Lexer
     ctx.mc("MC_Lexer", "MC_Lexer.%s.cfg" % ctx.tier, deadlock=False, coverage=False)
     lcases, lpath = ctx.gen("Gen_Lexer", "Gen_Lexer.%s.cfg" % ctx.tier)
